@@ -35,7 +35,7 @@ class Spec(PropSpec):
     subsys = "Uring"
     props_file = "C18.v"
     theorems = ["c18_exactly_once", "c18_not_early", "c18_visible_count", "c18_same_as_sync", "c18_push_full",
-                "c18_unsupported_flag", "c18_closed_file", "c18_crash_forgets", "c18_drain_completes", "c18_shuffle_complete", "c18_nonvacuous"]
+                "c18_unsupported_flag", "c18_closed_file", "c18_crash_forgets", "c18_ring_isolated", "c18_drain_completes", "c18_shuffle_complete", "c18_nonvacuous"]
     consts = CONSTS
     anchors = ANCHORS
     harness_bins = ["uring"]
